@@ -101,8 +101,9 @@ theorem natDigits_shape (n : Nat) : ∃ c tl, natDigits n = c :: tl ∧ Machine.
 /-! ## reading printed scalars -/
 
 omit hext in
-/-- what may follow a value inside the text of an array (or nothing, at top level) -/
-def SepOK (rest : Bytes) : Prop := rest = [] ∨ ∃ c tl, rest = c :: tl ∧ (c = 0x2c ∨ c = 0x5d)
+/-- what may follow a value: a separator or closing bracket of the enclosing container, the closing quote of a map key
+    holding a number (`MapKey`'s numeric methods), or nothing (top level) -/
+def SepOK (rest : Bytes) : Prop := rest = [] ∨ ∃ c tl, rest = c :: tl ∧ (c = 0x2c ∨ c = 0x5d ∨ c = 0x7d ∨ c = 0x22)
 
 omit hext in
 theorem skipWs_cons {c : UInt8} (hc : Machine.isWs c = false) (tl : Bytes) (pos : Nat) : skipWs (c :: tl) pos = (c :: tl, pos) := by
@@ -160,7 +161,9 @@ theorem sep_facts {rest : Bytes} (h : SepOK rest) :
     (rest = [] ∨ ∃ c tl, rest = c :: tl ∧ (c == 0x2e) = false ∧ (c == 0x65 || c == 0x45) = false) := by
   rcases h with rfl | ⟨c, tl, rfl, hc⟩
   · exact ⟨.inl rfl, .inl rfl⟩
-  · rcases hc with rfl | rfl
+  · rcases hc with rfl | rfl | rfl | rfl
+    · exact ⟨.inr ⟨_, _, rfl, by decide⟩, .inr ⟨_, _, rfl, by decide, by decide⟩⟩
+    · exact ⟨.inr ⟨_, _, rfl, by decide⟩, .inr ⟨_, _, rfl, by decide, by decide⟩⟩
     · exact ⟨.inr ⟨_, _, rfl, by decide⟩, .inr ⟨_, _, rfl, by decide, by decide⟩⟩
     · exact ⟨.inr ⟨_, _, rfl, by decide⟩, .inr ⟨_, _, rfl, by decide, by decide⟩⟩
 
@@ -232,8 +235,60 @@ end
 
 /-! ## agreement on printed values, leaf targets -/
 
+/-- numbers of the text leg: an integer of any size (`PosInt` / a negative `NegInt`: the typed integer targets include
+    the 128-bit ones, whose values a `Value` cannot hold but a typed value can) or a finite float; no literal
+    (`arbitrary_precision`) -/
+def wfNumW : Num → Bool
+  | .pos _ => true
+  | .neg i => decide (i < 0)
+  | .float b => Spec.Program.finite64 b
+  | .lit _ => false
+
+mutual
+/-- `Spec.WF.shapeOK {}` without the condition on the order of the keys (the text leg reads members in the order
+    they are written, and so does `from_value`): numbers as `Number` holds them without `arbitrary_precision`,
+    strings and keys valid UTF-8 -/
+def shapeW : JV → Bool
+  | .num n => wfNumW n
+  | .str s => Spec.Utf8.validUtf8 s
+  | .arr xs => shapeWs xs
+  | .obj kvs => shapeWm kvs
+  | _ => true
+def shapeWs : List JV → Bool
+  | [] => true
+  | x :: xs => shapeW x && shapeWs xs
+def shapeWm : List (Bytes × JV) → Bool
+  | [] => true
+  | (k, x) :: kvs => Spec.Utf8.validUtf8 k && shapeW x && shapeWm kvs
+end
+
+omit hext in
+mutual
+theorem shapeW_of_shapeOK (c : Spec.Canon.Cfg) (hc : c.ap = false) : ∀ v : JV, Spec.WF.shapeOK c v = true → shapeW v = true
+  | .null, _ | .bool _, _ => rfl
+  | .num n, h => by
+    cases n <;> simp_all [shapeW, wfNumW, Spec.WF.shapeOK, Spec.WF.wfNum]
+  | .str s, h => by simpa [shapeW, Spec.WF.shapeOK] using h
+  | .arr xs, h => by
+    simp only [shapeW, Spec.WF.shapeOK] at h ⊢
+    exact shapeWs_of_shapeOKs c hc xs h
+  | .obj kvs, h => by
+    simp only [shapeW, Spec.WF.shapeOK, Bool.and_eq_true] at h ⊢
+    exact shapeWm_of_shapeOKm c hc kvs h.2
+theorem shapeWs_of_shapeOKs (c : Spec.Canon.Cfg) (hc : c.ap = false) : ∀ xs : List JV, Spec.WF.shapeOKs c xs = true → shapeWs xs = true
+  | [], _ => rfl
+  | x :: xs, h => by
+    simp only [shapeWs, Spec.WF.shapeOKs, Bool.and_eq_true] at h ⊢
+    exact ⟨shapeW_of_shapeOK c hc x h.1, shapeWs_of_shapeOKs c hc xs h.2⟩
+theorem shapeWm_of_shapeOKm (c : Spec.Canon.Cfg) (hc : c.ap = false) : ∀ kvs : List (Bytes × JV), Spec.WF.shapeOKm c kvs = true → shapeWm kvs = true
+  | [], _ => rfl
+  | (k, x) :: kvs, h => by
+    simp only [shapeWm, Spec.WF.shapeOKm, Bool.and_eq_true] at h ⊢
+    exact ⟨⟨h.1.1, shapeW_of_shapeOK c hc x h.1.2⟩, shapeWm_of_shapeOKm c hc kvs h.2⟩
+end
+
 /-- the values of the staged claim: representable without `arbitrary_precision`, no floats -/
-def VOK (v : JV) : Prop := Spec.WF.shapeOK {} v = true ∧ Spec.WF.noFloat v = true
+def VOK (v : JV) : Prop := shapeW v = true ∧ Spec.WF.noFloat v = true
 
 /-- a typed parser `de` on the text `txt` (followed by a separator) against the verdict `fv` of the `Value` side -/
 def Agree1 (de : Bytes → Nat → TOut) (fv : FromValue.R) (txt : Bytes) : Prop := ∀ rest pos, SepOK rest →
@@ -262,10 +317,10 @@ theorem T_head (v : JV) (hv : VOK v) : ∃ c tl, T ext v = c :: tl ∧ HeadOf v 
     cases n with
     | pos n => obtain ⟨c, tl, h, hc, _⟩ := natDigits_shape n; exact ⟨c, tl, by rw [T_pos ext hext, h], hc⟩
     | neg i =>
-      have hi : i < 0 := by have := hv.1; simp [Spec.WF.shapeOK, Spec.WF.wfNum] at this; exact this.2
+      have hi : i < 0 := by have := hv.1; simp [shapeW, wfNumW] at this; exact this
       exact ⟨_, _, T_neg ext hext i hi, rfl⟩
     | float b => have := hv.2; simp [Spec.WF.noFloat] at this
-    | lit s => have := hv.1; simp [Spec.WF.shapeOK, Spec.WF.wfNum] at this
+    | lit s => have := hv.1; simp [shapeW, wfNumW] at this
   | str s => obtain ⟨tl, h⟩ := T_str ext s; exact ⟨_, tl, h, rfl⟩
   | arr xs => exact ⟨_, _, T_arr ext xs, rfl⟩
   | obj kvs => obtain ⟨tl, h⟩ := T_obj ext kvs; exact ⟨_, tl, h, rfl⟩
@@ -338,6 +393,27 @@ theorem parserNumber_neg (env : Env) (m : Nat) (h0 : 0 < m) (hm : m ≤ 2 ^ 63) 
     simp [intClass, mkParts, SJ.Proofs.RoundTripNum.natOfDigits_natDigits, this, hm]
   have := conv_of_intClass_some env _ (SJ.Proofs.RoundTripNum.isDigits_natDigits m) _ hic
   rw [parserNumber_eq, this]
+
+omit hext in
+/-- a literal that the parser does not class as `U64` / `I64` never satisfies an integer visitor -/
+theorem visit_notInt (env : Env) (w : IntTy) (parts : Parts) (rest' : Bytes) (pos' : Nat) (h : NotInt (conv env parts)) :
+    ∀ x r p, (match parserNumber env parts with
+      | some n => fixPos env true (ofVisit (visitNumber (.int w) n) rest' pos')
+      | none => (.err .NumberOutOfRange (peekErrorIdx rest' pos') : TOut)) ≠ .ok x r p := by
+  intro x r p
+  rw [parserNumber_eq]
+  cases hc : conv env parts with
+  | u64 k => exact absurd hc (h.1 k)
+  | i64 k => exact absurd hc (h.2 k)
+  | f64 b => simp [visitNumber, FromValue.numberInt, ofVisit, fixPos, FromValue.fail]
+  | outOfRange => simp
+  | outOfFuel => simp
+
+omit hext in
+theorem small_of_inRange (w : IntTy) (h128 : ¬ is128 w = true) (x : Int) (hr : w.inRange x = true) :
+    -(2 ^ 63 : Int) ≤ x ∧ x < 2 ^ 64 := by
+  cases w <;> simp [is128, IntTy.bits] at h128 <;>
+    (simp [IntTy.inRange, IntTy.lo, IntTy.hi, IntTy.signed, IntTy.bits] at hr; omega)
 
 section
 variable {env : Env} (hflt : env.flt = false) (cfg' : FromValue.Cfg) (hap : cfg'.ap = false) (ext' : FromValue.Ext)
@@ -438,14 +514,11 @@ theorem agree_int (w : IntTy) (v : JV) (hv : VOK v) : Agree1 (deInt env w) (From
   | num n =>
     cases n with
     | pos n =>
-      have hn : n < 2 ^ 64 := by have := hv.1; simpa [Spec.WF.shapeOK, Spec.WF.wfNum] using this
       simp only [FromValue.fromValue, FromValue.deInt, FromValue.numberInt, hap, Bool.false_eq_true, if_false, visitInt_eq]
       rw [T_pos ext hext] at hT ⊢
       -- what the typed side computes
-      have key : deInt env w (natDigits n ++ rest) pos =
-          if w.inRange (n : Int) then .ok (.int n) rest (pos + (natDigits n).length)
-          else if is128 w then .err .NumberOutOfRange (errorIdx env rest (pos + (natDigits n).length) true)
-          else .data (errorIdx env rest (pos + (natDigits n).length) true) := by
+      have key : ∃ e : TOut, (∀ x r p, e ≠ .ok x r p) ∧ deInt env w (natDigits n ++ rest) pos =
+          if w.inRange (n : Int) then .ok (.int n) rest (pos + (natDigits n).length) else e := by
         unfold deInt
         split
         · rw [hT]
@@ -460,9 +533,11 @@ theorem agree_int (w : IntTy) (v : JV) (hv : VOK v) : Agree1 (deInt env w) (From
             (by rw [hT]; simp)
           simp only [Bool.false_eq_true, if_false] at this
           rw [this, SJ.Proofs.RoundTripNum.natOfDigits_natDigits, ← hT]
+          refine ⟨.err .NumberOutOfRange (errorIdx env rest (pos + (natDigits n).length) true), by simp, ?_⟩
           simp only [FromValue.rangeChecked]
-          by_cases hr : w.inRange (n : Int) = true <;> simp [hr, ‹is128 w = true›]
-        · rw [hT]
+          by_cases hr : w.inRange (n : Int) = true <;> simp [hr]
+        · rename_i h128
+          rw [hT]
           simp only [List.cons_append]
           unfold deNumber
           rw [withPeek_cons env _ hw]
@@ -471,19 +546,32 @@ theorem agree_int (w : IntTy) (v : JV) (hv : VOK v) : Agree1 (deInt env w) (From
           simp only [ht.2.2.2.2.1, Bool.false_eq_true, if_false]
           rw [show c :: (tl ++ rest) = natDigits n ++ rest by rw [hT]; rfl]
           rw [scanInteger_natDigits hflt false n rest pos hs]
-          simp only [Res.bind, hfr, Bool.false_eq_true, if_false, parserNumber_pos env n hn, visitNumber, FromValue.numberInt, visitInt_eq, ← hT]
-          by_cases hr : w.inRange (n : Int) = true <;> simp [hr, ofVisit, fixPos, FromValue.fail, ‹¬is128 w = true›]
+          simp only [Res.bind, hfr, Bool.false_eq_true, if_false]
+          by_cases hn : n < 2 ^ 64
+          · simp only [parserNumber_pos env n hn, visitNumber, FromValue.numberInt, visitInt_eq, ← hT]
+            refine ⟨.data (errorIdx env rest (pos + (natDigits n).length) true), by simp, ?_⟩
+            by_cases hr : w.inRange (n : Int) = true <;> simp [hr, ofVisit, fixPos, FromValue.fail]
+          · have hr : w.inRange (n : Int) = false := by
+              cases hr' : w.inRange (n : Int) with
+              | false => rfl
+              | true => have := (small_of_inRange w h128 _ hr').2; omega
+            have hni : NotInt (conv env (mkParts false (natDigits n) none none)) :=
+              conv_of_intClass_none env _ rfl rfl (SJ.Proofs.RoundTripNum.isDigits_natDigits n) (by
+                simp [intClass, mkParts, SJ.Proofs.RoundTripNum.natOfDigits_natDigits, hn])
+            refine ⟨_, visit_notInt env w _ rest (pos + (natDigits n).length) hni, ?_⟩
+            simp only [hr, Bool.false_eq_true, if_false]
+            rfl
+      obtain ⟨e, he, hk⟩ := key
       by_cases hr : w.inRange (n : Int) = true
-      · simp only [hr, if_true] at key ⊢
-        exact key
-      · simp only [hr, Bool.false_eq_true, if_false, FromValue.fail] at key ⊢
-        intro x r p
-        rw [key]
-        split <;> simp
+      · simp only [hr, if_true] at hk ⊢
+        exact hk
+      · simp only [hr, Bool.false_eq_true, if_false, FromValue.fail] at hk ⊢
+        rw [hk]
+        exact he
     | neg i =>
-      have hi : -(2 ^ 63 : Int) ≤ i ∧ i < 0 := by have := hv.1; simpa [Spec.WF.shapeOK, Spec.WF.wfNum] using this
+      have hi : i < 0 := by have := hv.1; simpa [shapeW, wfNumW] using this
       simp only [FromValue.fromValue, FromValue.deInt, FromValue.numberInt, hap, Bool.false_eq_true, if_false, visitInt_eq]
-      have hT' := T_neg ext hext i hi.2
+      have hT' := T_neg ext hext i hi
       rw [hT']
       have hmi : (-(i.natAbs : Int)) = i := by omega
       have key : ∃ e : TOut, (∀ x r p, e ≠ .ok x r p) ∧ deInt env w (0x2d :: natDigits i.natAbs ++ rest) pos =
@@ -511,18 +599,32 @@ theorem agree_int (w : IntTy) (v : JV) (hv : VOK v) : Agree1 (deInt env w) (From
               have hlo : w.lo = 0 := by simp [IntTy.lo, hsg]
               simp [IntTy.inRange, hlo]; omega
             exact ⟨.err .NumberOutOfRange (pos + 1), by simp, by simp [this]⟩
-        · simp only [List.cons_append]
+        · rename_i h128
+          simp only [List.cons_append]
           unfold deNumber
           rw [withPeek_cons env _ (by decide)]
           simp only [show isNumStart 0x2d = true by decide, if_true]
           unfold scanNumber
           simp only [beq_self_eq_true, if_true]
           rw [scanInteger_natDigits hflt true i.natAbs rest (pos + 1) hs]
-          have hpn := parserNumber_neg env i.natAbs (by omega) (by omega)
-          rw [hmi] at hpn
-          simp only [Res.bind, hfr, Bool.false_eq_true, if_false, hpn, visitNumber, FromValue.numberInt, visitInt_eq, List.length_cons]
-          refine ⟨.data (errorIdx env rest (pos + 1 + (natDigits i.natAbs).length) true), by simp, ?_⟩
-          by_cases hr : w.inRange i = true <;> simp [hr, ofVisit, fixPos, FromValue.fail] <;> omega
+          simp only [Res.bind, hfr, Bool.false_eq_true, if_false]
+          by_cases hsm : i.natAbs ≤ 2 ^ 63
+          · have hpn := parserNumber_neg env i.natAbs (by omega) hsm
+            rw [hmi] at hpn
+            simp only [hpn, visitNumber, FromValue.numberInt, visitInt_eq, List.length_cons]
+            refine ⟨.data (errorIdx env rest (pos + 1 + (natDigits i.natAbs).length) true), by simp, ?_⟩
+            by_cases hr : w.inRange i = true <;> simp [hr, ofVisit, fixPos, FromValue.fail] <;> omega
+          · have hr : w.inRange i = false := by
+              cases hr' : w.inRange i with
+              | false => rfl
+              | true => have := (small_of_inRange w h128 _ hr').1; omega
+            have hni : NotInt (conv env (mkParts true (natDigits i.natAbs) none none)) :=
+              conv_of_intClass_none env _ rfl rfl (SJ.Proofs.RoundTripNum.isDigits_natDigits _) (by
+                have h0 : (i.natAbs == 0) = false := by simp; omega
+                simp [intClass, mkParts, SJ.Proofs.RoundTripNum.natOfDigits_natDigits, h0, hsm])
+            refine ⟨_, visit_notInt env w _ rest (pos + 1 + (natDigits i.natAbs).length) hni, ?_⟩
+            simp only [hr, Bool.false_eq_true, if_false]
+            rfl
       obtain ⟨e, he, hk⟩ := key
       simp only [List.cons_append] at hk ⊢
       by_cases hr : w.inRange i = true
@@ -568,7 +670,7 @@ theorem map_not_ok {α β : Type} {r : Res α} {f : α → β} (h : ∀ x r' p, 
 omit hext in
 /-- `Option<T>`: `null` is `None`, anything else is `Some` of the inner target -/
 theorem agree_option (s : Schema) (f t : Nat) (v : JV) (hv : VOK v)
-    (ih : Agree1 (deTyped env f t s) (FromValue.fromValue cfg' ext' s v) (T ext v)) (hT : ∃ c tl, T ext v = c :: tl ∧ HeadOf v c) :
+    (ih : v ≠ .null → Agree1 (deTyped env f t s) (FromValue.fromValue cfg' ext' s v) (T ext v)) (hT : ∃ c tl, T ext v = c :: tl ∧ HeadOf v c) :
     Agree1 (deTyped env (f + 1) t (.option s)) (FromValue.fromValue cfg' ext' (.option s) v) (T ext v) := by
   intro rest pos hs
   obtain ⟨c, tl, hT, hc⟩ := hT
@@ -585,7 +687,7 @@ theorem agree_option (s : Schema) (f t : Nat) (v : JV) (hv : VOK v)
     rw [this]
     simp [Res.bind, Gen.identNull]
   | bool _ | num _ | str _ | arr _ | obj _ =>
-    have ih' := ih rest pos hs
+    have ih' := ih (by intro h; cases h) rest pos hs
     simp only [FromValue.fromValue]
     rw [hT] at ih' ⊢
     simp only [List.cons_append] at ih' ⊢
@@ -641,7 +743,7 @@ omit hflt hap hext in
 /-- the separator that follows an element is admissible (`,` or `]`) -/
 theorem sepOK_tail (xs : List JV) (rest : Bytes) : SepOK (Ttail ext xs ++ 0x5d :: rest) := by
   cases xs with
-  | nil => exact .inr ⟨0x5d, rest, rfl, .inr rfl⟩
+  | nil => exact .inr ⟨0x5d, rest, rfl, .inr (.inl rfl)⟩
   | cons x xs => exact .inr ⟨0x2c, _, rfl, .inl rfl⟩
 
 /-- elements of an array read by the element parser `de`, against `seqAll fv`; `first`: no element has been read yet -/
@@ -807,13 +909,13 @@ theorem depthOK_elem (t : Nat) (xs : List JV) (x : JV) (hx : x ∈ xs) (h : Dept
 omit hflt hap hext in
 theorem vok_elem : ∀ (xs : List JV) (x : JV), x ∈ xs → VOK (.arr xs) → VOK x := by
   intro xs x hx hv
-  have h1 : Spec.WF.shapeOKs {} xs = true := by simpa [Spec.WF.shapeOK] using hv.1
+  have h1 : shapeWs xs = true := by simpa [shapeW] using hv.1
   have h2 : Spec.WF.noFloats xs = true := by simpa [Spec.WF.noFloat] using hv.2
   clear hv
   induction xs with
   | nil => simp at hx
   | cons y ys ih =>
-    simp only [Spec.WF.shapeOKs, Spec.WF.noFloats, Bool.and_eq_true] at h1 h2
+    simp only [shapeWs, Spec.WF.noFloats, Bool.and_eq_true] at h1 h2
     rcases List.mem_cons.mp hx with rfl | hx
     · exact ⟨h1.1, h2.1⟩
     · exact ih hx h1.2 h2.2
@@ -875,9 +977,24 @@ theorem agree_seq (s : Schema) (f t : Nat) (v : JV) (hv : VOK v) (hd : DepthOK e
     simp only [ht.2.2.2.2.2.2.1, Bool.false_eq_true, if_false]
     exact peekInvalidType_not_ok _ _ _ _ _ _
 
+omit hflt hap hext in
+/-- positionwise agreement of the element parsers of a fixed-length visitor (tuple, struct fields in order) with the
+    elements of an array: the i-th schema on the i-th element -/
+def TupAgree (de : Schema → Bytes → Nat → TOut) (fv : Schema → JV → FromValue.R) : List Schema → List JV → Prop
+  | s :: ss, x :: xs => Agree1 (de s) (fv s x) (T ext x) ∧ TupAgree de fv ss xs
+  | _, _ => True
+
+omit hflt hap hext in
+theorem tupAgree_of_all (de : Schema → Bytes → Nat → TOut) (fv : Schema → JV → FromValue.R) : ∀ (ss : List Schema) (xs : List JV),
+    (∀ s ∈ ss, ∀ x ∈ xs, Agree1 (de s) (fv s x) (T ext x)) → TupAgree ext de fv ss xs
+  | [], _, _ => trivial
+  | _ :: _, [], _ => trivial
+  | s :: ss, x :: xs, h => ⟨h s (by simp) x (by simp),
+      tupAgree_of_all de fv ss xs fun s' hs' x' hx' => h s' (by simp [hs']) x' (by simp [hx'])⟩
+
 /-- a fixed-length tuple visitor on the elements of an array, against `tupleSeq`: the elements it leaves are left in the text -/
 theorem tupleLoop_text (f t : Nat) : ∀ (ss : List Schema) (xs : List JV),
-    (∀ s ∈ ss, ∀ x ∈ xs, Agree1 (deTyped env f t s) (FromValue.fromValue cfg' ext' s x) (T ext x)) →
+    TupAgree ext (deTyped env f t) (FromValue.fromValue cfg' ext') ss xs →
     (∀ x ∈ xs, ∃ c tl, T ext x = c :: tl ∧ HeadOf x c) →
     ∀ (first : Bool) (acc : List TVal) (rest : Bytes) (pos : Nat),
       match FromValue.tupleSeq cfg' ext' ss xs with
@@ -933,7 +1050,7 @@ theorem tupleLoop_text (f t : Nat) : ∀ (ss : List Schema) (xs : List JV),
           rw [hasNextElement_comma hw h5]
           simp [Res.bind]
       obtain ⟨q, hq, hstep⟩ := step
-      have hel := hag s (by simp) x (by simp) (Ttail ext xs ++ 0x5d :: rest) q (sepOK_tail ext xs rest)
+      have hel := hag.1 (Ttail ext xs ++ 0x5d :: rest) q (sepOK_tail ext xs rest)
       have hlen : (if first then Telems ext (x :: xs) else Ttail ext (x :: xs)).length =
           (if first then 0 else 1) + (T ext x).length + (Ttail ext xs).length := by
         cases first with
@@ -955,7 +1072,7 @@ theorem tupleLoop_text (f t : Nat) : ∀ (ss : List Schema) (xs : List JV),
         simp only at hel ⊢
         rw [hel]
         simp only [Res.map, Res.bind]
-        have hrec := ih xs (fun s' hs' x' hx' => hag s' (by simp [hs']) x' (by simp [hx'])) (fun x' hx' => hhd x' (by simp [hx']))
+        have hrec := ih xs hag.2 (fun x' hx' => hhd x' (by simp [hx']))
           false (y :: acc) rest (q + (T ext x).length)
         simp only [Bool.false_eq_true, if_false, Bool.false_and] at hrec
         cases hall : FromValue.tupleSeq cfg' ext' ss xs with
@@ -1007,7 +1124,7 @@ theorem tupleSeq_rem_mem (cfg : FromValue.Cfg) (e : FromValue.Ext) : ∀ (ss : L
 
 /-- fixed-length tuples -/
 theorem agree_tuple (ss : List Schema) (f t : Nat) (v : JV) (hv : VOK v) (hd : DepthOK env t v)
-    (ih : ∀ xs, v = .arr xs → ∀ s ∈ ss, ∀ x ∈ xs, Agree1 (deTyped env f (t + 1) s) (FromValue.fromValue cfg' ext' s x) (T ext x)) :
+    (ih : ∀ xs, v = .arr xs → TupAgree ext (deTyped env f (t + 1)) (FromValue.fromValue cfg' ext') ss xs) :
     Agree1 (deTyped env (f + 1) t (.tuple ss)) (FromValue.fromValue cfg' ext' (.tuple ss) v) (T ext v) := by
   intro rest pos hs
   obtain ⟨c, tl, hT, hc⟩ := T_head ext hext v hv
@@ -1131,14 +1248,14 @@ theorem agree_deTyped {env : Env} (hflt : env.flt = false) (cfg' : FromValue.Cfg
       simpa [FromValue.fromValue] using this
     | option s' =>
       exact agree_option ext hflt cfg' hap ext' s' f t v hv
-        (ih s' (by simp only [Schema.size] at hs; omega) (by simpa [agreeFrag] using hfr) t v hv hd) (T_head ext hext v hv)
+        (fun _ => ih s' (by simp only [Schema.size] at hs; omega) (by simpa [agreeFrag] using hfr) t v hv hd) (T_head ext hext v hv)
     | seq s' =>
       refine agree_seq ext hext hflt cfg' hap ext' s' f t v hv hd fun xs hxs x hx => ?_
       subst hxs
       exact ih s' (by simp only [Schema.size] at hs; omega) (by simpa [agreeFrag] using hfr) (t + 1) x (vok_elem xs x hx hv)
         (depthOK_elem t xs x hx hd)
     | tuple ss =>
-      refine agree_tuple ext hext hflt cfg' hap ext' ss f t v hv hd fun xs hxs s' hs' x hx => ?_
+      refine agree_tuple ext hext hflt cfg' hap ext' ss f t v hv hd fun xs hxs => tupAgree_of_all ext _ _ ss xs fun s' hs' x hx => ?_
       subst hxs
       have hsz := size_mem_list ss s' hs'
       exact ih s' (by simp only [Schema.size] at hs; omega) (agreeFrag_mem ss s' hs' (by simpa [agreeFrag] using hfr)) (t + 1) x
